@@ -13,7 +13,8 @@ SCALAR_CARRIERS = ['pyfloat', 'pyint', 'np.float64', 'np.float32', 'np.float16',
                    'np.int8', 'np.uint64', 'np.uint32', 'np.uint16', 'np.uint8', '0d-f64', '0d-i64', 'decstr', 'pybool']
 ARRAY_CARRIERS = ['ndarray-f64', 'ndarray-f32', 'ndarray-i64', 'ndarray-i32', 'ndarray-u8', 'list', 'tuple', 'nested-list',
                   'nested-tuple', 'list-decstr', 'ndarray-2d']
-ROUTES = ['ctor', 'call', 'set_val', 'setitem', 'setitem-slice', 'setitem-2d']
+ROUTES = ['ctor', 'call', 'set_val', 'setitem', 'setitem-slice', 'setitem-2d', 'call-reset', 'recfg']
+_OTHER = {'trunc': 'around', 'fix': 'ceil', 'floor': 'trunc', 'ceil': 'floor', 'around': 'fix', 'saturate': 'wrap', 'wrap': 'saturate'}
 
 
 def _exact(np, val, target):
@@ -122,6 +123,20 @@ def do_write(fx, np, route, obj, fmt, modes, n):
         return x, x
     if route == 'set_val':
         x = Fxp(None, s, w, f, **kw)
+        x.set_val(obj)
+        return x, x
+    if route == 'call-reset':       # history: an earlier (inexact, possibly overflowing) write, reset(), then the write
+        x = Fxp(None, s, w, f, **kw)
+        x(0.3 if not isinstance(obj, (list, tuple, np.ndarray)) or np.ndim(obj) == 0 else np.full(np.shape(obj), 2.0 ** (w - f) + 0.3))
+        x.reset()
+        x(obj)
+        return x, x
+    if route == 'recfg':            # history: created and used under OTHER modes, reconfigured through .config, reset, write
+        x = Fxp(None, s, w, f, rounding=_OTHER[modes[0]], overflow=_OTHER[modes[1]])
+        x(0.3 if np.ndim(obj) == 0 else np.full(np.shape(obj), 0.3))
+        x.config.rounding = modes[0]
+        x.config.overflow = modes[1]
+        x.reset()
         x.set_val(obj)
         return x, x
     if route == 'setitem':          # scalar into one element of an array object
